@@ -16,3 +16,4 @@ pub mod storegen;
 pub use evidence::{Run, Tier};
 pub use rng::Rng;
 pub mod fmt;
+pub mod embedkit;
